@@ -694,6 +694,17 @@ func (cfg *Config) wordFields(wps []syntax.WordPart) ([][]fieldPart, error) {
 							break
 						}
 						b = s[i]
+						switch b {
+						case '*', '?', '[', '\\':
+							// An escaped pattern character stands for itself when the
+							// field is later globbed, so keep it as a quoted part.
+							if sb.Len() > 0 {
+								curField = append(curField, fieldPart{val: sb.String()})
+								sb.Reset()
+							}
+							curField = append(curField, fieldPart{quote: quoteSingle, val: string(b)})
+							continue
+						}
 					}
 					sb.WriteByte(b)
 				}
